@@ -407,11 +407,25 @@ func (c *Check) ruleExplicitHeightNotClamped(rule string) {
 		return isInt && v == -1
 	}, true)
 	n := 0
-	for _, lc := range loopsCalling(fn, "(*storage.BlockRepository).Header") {
+	type hdrLoop struct {
+		h   *ssa.BasicBlock
+		phi *ssa.Phi
+	}
+	var loops []hdrLoop
+	for _, s := range callsTo(fn, "(*storage.BlockRepository).Header") {
+		if len(s.CC.Args) == 0 {
+			continue
+		}
+		// the height argument: the loop variable, whatever else the loop condition tests
+		if phi, ok := stripConv(s.CC.Args[len(s.CC.Args)-1]).(*ssa.Phi); ok && loopBody(phi.Block()) != nil {
+			loops = append(loops, hdrLoop{phi.Block(), phi})
+		}
+	}
+	for _, lc := range loops {
 		var init ssa.Value
-		body := loopBody(lc.cl.h)
-		for i, e := range lc.cl.phi.Edges {
-			if !body[lc.cl.h.Preds[i]] {
+		body := loopBody(lc.h)
+		for i, e := range lc.phi.Edges {
+			if !body[lc.h.Preds[i]] {
 				init = e
 			}
 		}
@@ -451,7 +465,7 @@ func (c *Check) ruleExplicitHeightNotClamped(rule string) {
 			}
 		}
 		walk(init, nil)
-		c.Decide(okv, rule, fmt.Sprintf("spynode.(*Node).GetHeaders#explicit-height-served-as-requested@%d", n), loopPos(lc.cl.h), "must-pass", w,
+		c.Decide(okv, rule, fmt.Sprintf("spynode.(*Node).GetHeaders#explicit-height-served-as-requested@%d", n), loopPos(lc.h), "must-pass", w,
 			"the first height read is the requested one unless the request was -1",
 			"the start height of an explicit request can be replaced (e.g. a negative height clamped to 0) outside the `height == -1` case: the headers returned are not the ones at the requested height, and the response says they are")
 	}
